@@ -1452,13 +1452,14 @@ class Component(composites.Composite, metaclass=ComponentType):
         """Returns the mass density of the object in g/cc."""
         density = composites.Composite.density(self)
 
-        if not density and not isinstance(self.material, void.Void):
+        if not self.p.numberDensities and not isinstance(self.material, void.Void):
             # possible that there are no nuclides in this component yet. In that case,
             # defer to Material. Material.density is wrapped to warn if it's attached
-            # to a parent. Avoid that by calling the inner function directly
-            density = self.material.density.__wrapped__(
-                self.material, Tc=self.temperatureInC
-            )
+            # to a parent. Avoid that by calling the inner function directly (the density
+            # of a Fluid is not wrapped)
+            materialDensity = type(self.material).density
+            materialDensity = getattr(materialDensity, "__wrapped__", materialDensity)
+            density = materialDensity(self.material, Tc=self.temperatureInC)
 
         return density
 
